@@ -164,6 +164,8 @@ def acc_C16_activity(w):
         if v.monitor in ("C09.hft_sample", "C09.hft_order", "C09.hft_not_all_consulted", "C09.rate_draw", "C09.normal_sample", "C09.normal_order",
                          "C09.normal_not_all_consulted"):
             raise common.Violation("C16.activity_during_halt", "while a halt is in force agents are not asked for orders the way the session rules say (orders can still be placed and cancelled during the halt) | " + v.msg)
+        if v.monitor in ("C09.no_round_after_accept", "C09.fill_in_no_execution_session"):
+            raise common.Violation("C16.matching_around_halt", "matching does not stop with the halt and resume with it: while no halt is in force every accepted order or cancel is followed by a matching round | " + v.msg)
         # anything else the run-loop acceptor objects to belongs to C09
 
 
@@ -173,15 +175,15 @@ def run(tier, seed):
     hft = {k: v for k, v in sc.items() if "hft" in k}
     sc = {k: v for k, v in sc.items() if k not in hft}
     run_r("C16", tier, seed, hft, [acc_C16_activity], 1 if tier == "quick" else 2, on_exc, [], RULE, res=res, label="halt_with_high_frequency_agents", split=0)
-    run_r("C16", tier, seed, sc, [acc_C16], 1 if tier == "quick" else 2, on_exc, WIT, RULE, res=res, label="halt_grid", split=0)
+    run_r("C16", tier, seed, sc, [acc_C16_activity], 1 if tier == "quick" else 2, on_exc, WIT, RULE, res=res, label="halt_grid", split=0)
     deep = {k: v for k, v in sc.items() if k in ("halt:exec7-L2-one_market", "halt:noexec_long_then_exec-L1-two_markets_two_rules",
                                                   "halt:exec3_exec4-L2-two_markets_both_one_rule", "halt:sweep-L1-1m")}
     if tier != "quick":
         # bound 3 on all four took 1.6 h; the whole grid is already at bound 2 in this tier, so only the smallest one goes deeper
         deep = {k: v for k, v in deep.items() if k == "halt:sweep-L1-1m"}
-    run_r("C16", tier, seed, deep, [acc_C16], 2 if tier == "quick" else 3, on_exc, WIT, RULE, res=res, label="halt_grid_deeper")
+    run_r("C16", tier, seed, deep, [acc_C16_activity], 2 if tier == "quick" else 3, on_exc, WIT, RULE, res=res, label="halt_grid_deeper")
     return res
 
 
 def replay(payload):
-    return replay_r(scenarios("thorough"), [acc_C16_activity if "hft" in payload.get("scenario", "") else acc_C16], on_exc, payload)
+    return replay_r(scenarios("thorough"), [acc_C16_activity], on_exc, payload)
